@@ -267,6 +267,28 @@ int main(int argc, char **argv)
                     }
         }
     }
+    {
+        // thread counts around and above the number of processors (per-thread scratch sized by the wrong count)
+        int procs = omp_get_num_procs();
+        std::set<int> ts_ = {procs - 1, procs, procs + 1, 2 * procs + 1, 15, 16, 17, 33};
+        long long added = 0;
+        for (int b = 0; b < NB; b++)
+        {
+#ifndef __AVX512__
+            if (b == B_AVX512) continue;
+#endif
+            for (int t : ts_)
+                for (size_t r : {(size_t)32, (size_t)64})
+                    for (size_t cc : {(size_t)3, (size_t)9})
+                    {
+                        if (t < 1) continue;
+                        cases.push_back({b, r, cc, 1, t, 0, (int)((r + cc) % 3), 0});
+                        cases.push_back({b, r, cc, (size_t)(cc == 3 ? 2 : 1), t, (size_t)2, (int)((r + cc + 1) % 3), 0});
+                        added += 2;
+                    }
+        }
+        rep().stat("cases_with_teams_around_the_processor_count", added);
+    }
     if (!args.num("light", 0))
     {
         // called from inside a parallel region of the caller (run_case_outer)
